@@ -79,7 +79,7 @@ def tablesJson (T : Tables) : Json :=
     ("gameLumpIds", Json.arr (Gen.Bsp.gameLumpIds.map Json.str).toArray),
     ("pos", Wire.ofNatList ((List.range T.n).map T.pos)),
     ("WF", Json.bool (WF T)), ("WritesAll", Json.bool (WritesAll T)), ("Topo", Json.bool (Topo T)),
-    ("RAcyclic", Json.bool (RAcyclic T)), ("Frame", Json.bool (Frame T)), ("BorrowOK", Json.bool (BorrowOK T)),
+    ("RAcyclic", Json.bool (RAcyclic T)), ("Frame", Json.bool (Frame T)), ("BorrowOK", Json.bool (BorrowOK T)), ("LiveLoop", Json.bool (LiveLoop T)),
     ("topoViolations", pairsJson (topoViolations T)),
     ("reachAtSave", Json.arr ((List.range T.n).map fun v => Wire.ofNatList (reachAtSave T v)).toArray)]
 
